@@ -16,7 +16,10 @@ RULE = ('every ordered pair of the 13 column types (Text, Int, Numeric, Bool, Da
         'edges, floats incl. NaN/inf, bools, lists, encoded dates, references, errors); quick tier: per source type and stream a '
         'random 7 of the 12 targets with a random 18 values, plus runs of ==-equal values of different Python types; '
         'thorough: every pair with the whole pool, plus two-way reference columns. '
-        'A case is non-trivial when at least one cell changed its stored value')
+        'A case is non-trivial when at least one cell changed its stored value. Zone stream: one document with four Text/Any '
+        'columns holding the same date-time strings (naive, with offset, date-only, unparseable), converted one after the '
+        'other to DateTime of different zones / Date, the last one converted, undone and converted to another zone; the '
+        'expected values come from datetime+zoneinfo, not from the engine')
 TRUSTED = ['Model/ModifyColumn.v is hand-written; tied on every run by replaying every generated case through the model '
            '(vm_compute) with the conversion, the storing normalisation and strict_equal tabulated from the running code, '
            'and comparing the resulting column and the untouched columns with the engine',
@@ -459,6 +462,7 @@ def fixed_corpus(ctx):
 
 def search(ctx):
   fixed_corpus(ctx)
+  zone_stream(ctx)
   n = 0
   per_kind = collections.Counter()
   known_kinds = set(k.get('violation_kind') for k in core.load_known() if k['property'] == ID and k.get('kind') == 'known')
@@ -495,6 +499,9 @@ def shrink(w):
 
 
 def replay(ctx, w):
+  if 'zone_seed' in w:
+    info, problems = zone_case(w['zone_seed'], w.get('source', 'Text'))
+    return problems[0] if problems else None
   res = run_case(w['T'], w['T2'], w['vals'], w.get('raw', False), w.get('two_way', False))
   probs = [p for p in res['problems'] if w.get('kind') in (None, p[0])]
   if probs:
@@ -510,6 +517,10 @@ def replay(ctx, w):
 PIN_DOMODIFY = 'c2ee74ccbb38bc5828d3b0679e6de8be31ee1e65'
 # statements of docactions.ModifyColumn the data path relies on besides the translated loop
 PIN_DOCACTION = ['old_column = table.get_column(col_id)', 'new_column = table.get_column(col_id)']
+
+# conversion functions whose result must depend on the type object and the value only (no state kept between calls):
+# canonical AST of the text the zone stream's reference was written against
+PIN_USERTYPES = {'BaseColumnType.convert': '1a0f3a55e506d43ff7768746546b79d3169b35af', 'Date.do_convert': '50a5f913f123d97c825b93bfb14860329fa124e4', 'DateTime.do_convert': 'a2a3e3a54caa085aa1943f8c077076f23e2cfbc7'}
 
 CONV_BINDING = {
   'names': {'new_column': 'new_column'}, 'exprs': {'all_rows': 'all_rows'},
@@ -545,6 +556,12 @@ def regenerate(ctx):
     if len(loops) != 1 or texts.index(PIN_DOCACTION[1]) + 1 != body.index(loops[0]):
       raise core.TieBroken('docactions.ModifyColumn: the fill loop does not follow `new_column = table.get_column(col_id)`')
     fill = sm2v.Tr(FILL_BINDING).block(loops, ['new_column'])
+    for q, h in PIN_USERTYPES.items():
+      f3 = sm2v.find_function(os.path.join(core.GRIST, 'usertypes.py'), q)
+      txt = sm2v.pin(sm2v.strip_doc(f3.body)) + '|' + sm2v.ast.dump(f3.args, annotate_fields=False)
+      if hashlib.sha1(txt.encode()).hexdigest() != h:
+        raise core.TieBroken('usertypes.%s is not the text the check was written from (a conversion must be a function '
+                             'of the type object and the value)' % q)
   except (sm2v.Untranslatable, core.TieBroken) as e:
     # no stale generated code: the bridging obligations cannot be discharged until the source is translatable again
     core.write_if_changed(os.path.join(core.COQ, 'gen', 'ModifyColumn_gen.v'),
@@ -572,3 +589,94 @@ Section Gen.
 End Gen.
 ''' % (conv, fill)
   core.write_if_changed(os.path.join(core.COQ, 'gen', 'ModifyColumn_gen.v'), text)
+
+
+# ------------------------------------------------------------------------------------------------
+# the same naive date-time strings converted under different time zones, in sequence (conversion must depend on the
+# NEW type only, not on what was converted before in this process); the expected values come from the standard
+# library (datetime + zoneinfo), not from the engine's own conversion functions
+
+ZONES = ['America/New_York', 'Asia/Tokyo', 'UTC', 'Europe/Paris', 'Australia/Sydney', 'America/Los_Angeles', 'Asia/Kolkata']
+DT_STRINGS = ['2020-07-04 10:30:00', '2021-01-15T08:00:00', '2021-01-15 08:00', '2020-07-04', '2020-07-04 10:30:00Z',
+              '2020-07-04T10:30:00+02:00', '2020-07-04 10:30:00.250', '2019-12-31 23:59:59', 'not a date', '',
+              '2020-13-01', '2020-07-04 10:30:00']
+
+
+def ref_datetime(s, zone):
+  """DateTime:<zone> conversion of a stored string, by the standard library."""
+  import datetime
+  import zoneinfo
+  if s == '':
+    return None
+  try:
+    dt = datetime.datetime.fromisoformat(s.replace('Z', '+00:00'))
+  except ValueError:
+    return s
+  if dt.tzinfo is None:
+    dt = dt.replace(tzinfo=zoneinfo.ZoneInfo(zone))
+  return dt.timestamp()
+
+
+def ref_date(s):
+  import calendar
+  import datetime
+  if s == '':
+    return None
+  try:
+    dt = datetime.datetime.fromisoformat(s.replace('Z', '+00:00'))
+  except ValueError:
+    return s
+  return float(calendar.timegm(dt.date().timetuple()))
+
+
+def zone_case(seed, source='Text', ncols=4):
+  """One document, several columns with the same strings, converted one after the other.  Returns (steps, problems)."""
+  Gm = G()
+  rng = random.Random(seed)
+  strings = rng.sample(DT_STRINGS, 8)
+  e, _ = Gm.new_doc()
+  cols = ['S%d' % i for i in range(ncols)]
+  Gm.apply(e, [['AddTable', 'T', [{'id': c, 'type': source, 'isFormula': False} for c in cols]],
+               ['BulkAddRecord', 'T', [None] * len(strings), {c: list(strings) for c in cols}]])
+  rows = list(range(1, len(strings) + 1))
+  steps, problems = [], []
+  zones = rng.sample(ZONES, ncols + 1)
+  def convert(col, typ):
+    out = Gm.apply(e, [['ModifyColumn', 'T', col, {'type': typ}]])
+    steps.append([col, typ])
+    colobj = e.tables['T'].get_column(col)
+    for r, s in zip(rows, strings):
+      got = colobj.raw_get(r)
+      exp = ref_date(s) if typ == 'Date' else ref_datetime(s, typ.split(':', 1)[1])
+      if not (got == exp and type(got) == type(exp)):
+        problems.append('after %r: %s[%d] holds %r, the %s conversion of the stored %r is %r'
+                        % (steps, col, r, got, typ, s, exp))
+    return out
+  for i, col in enumerate(cols):
+    if i == ncols - 1:
+      # convert, undo, convert to another zone
+      out = convert(col, 'DateTime:' + zones[i])
+      Gm.apply(e, [['ApplyUndoActions', Gm.reprs(out.undo)]])
+      steps.append([col, 'undo'])
+      convert(col, 'DateTime:' + zones[i + 1])
+    elif i == 1 and rng.random() < 0.5:
+      convert(col, 'Date')
+    else:
+      convert(col, 'DateTime:' + zones[i])
+  return {'seed': seed, 'source': source, 'steps': steps, 'strings': strings}, problems
+
+
+def zone_stream(ctx):
+  for i in range(ctx.n(6, 80)):
+    seed = ctx.seed * 7368787 + i
+    source = 'Text' if i % 3 else 'Any'
+    try:
+      info, problems = zone_case(seed, source)
+    except Exception:
+      import traceback
+      ctx.violation('zone-stream-raises', traceback.format_exc()[-500:], {'zone_seed': seed, 'source': source})
+      continue
+    ctx.count(('zones', seed), nontrivial=True, kind='zone-sequence:' + source)
+    if problems:
+      ctx.violation('cell-depends-on-earlier-conversion', problems[0], {'zone_seed': seed, 'source': source,
+                                                                         'steps': info['steps'], 'strings': info['strings']})
